@@ -397,7 +397,7 @@ def reused_difference(chain, langs, t1, t2):
         return (k, show(b) if b is not None else None, show(a) if a is not None else None)
     return None
 
-# ---- wave 7: chains at DOCUMENT level with DFXP hops (request 806 = run_doc, theorem C08_chain_doc_text_four_formats) ----
+# ---- wave 7: chains at DOCUMENT level with DFXP hops (request 806 = run_doc, theorem C08_chain_doc_text_four_formats_partial) ----
 DOC_WORDS = ["hello", "world", "l'a", "x", "42", "\u00e9\u4e2d", "a\u00a0b", "{1}{2}", "w;", "R-D", "1.5", "NOTE"]
 DOC_MARKUP = ["a & b", "<i>x</i>", "1 < 2 > 0", "&amp;", "x]]>y"]
 
@@ -803,9 +803,9 @@ def run(ctx):
                     "DFXP hop at DOCUMENT level (wave 7): the whole written document read back by the string-level reader model "
                     "returns every caption floored to the ms with its text lines (C08_dfxp_roundtrip_string); every chain "
                     "of SRT / MicroDVD / WebVTT / DFXP document hops = closed-form times and unchanged text lines "
-                    "(C08_chain_doc_text_four_formats)",
+                    "(C08_chain_doc_text_four_formats_partial)",
                     "SAMI hop at DOCUMENT level (round 4): C08_sami_roundtrip_string; every chain of document hops over all FIVE "
-                    "formats = the spec's times and unchanged text lines (C08_chain_doc_text_five_formats)",
+                    "formats = the spec's times and unchanged text lines (C08_chain_doc_text_five_formats_partial)",
                     "token level: writer model then reader model = floor to the format's unit (SRT, WebVTT, DFXP, MicroDVD)",
                     "cue-list level incl. SRT merge loop and SAMI sync rule + back-filling: a model hop is pi_F on the "
                     "domain; a chain of model hops is the closed form; a SECOND chain of model hops returns the same "
